@@ -54,3 +54,64 @@ Theorem c12_cut_pieces : forall W src t1 t2,
   end.
 Proof. exact PreCut.c12_cut_pieces. Qed.
 Print Assumptions c12_cut_pieces.
+
+(* ---------- tags of the pieces of preformatted lines (Proofs/PreTags.v): refinement to a tag-blind reference machine; first pieces main-tagged; continuation pieces main-tagged only on the head run of a moved word (the recorded class) ---------- *)
+From H2T Require Import Base Tagged Wrap Sub Css Dom Render Api CssParse Proofs.CssTotal Proofs.WrapInv Proofs.RenderWidth Proofs.Conserve Proofs.Footnotes Proofs.AnnBalance Proofs.RenderConserve Proofs.OptionRel Proofs.Compose Proofs.RenderTotal Proofs.FragStream Proofs.SimRel Proofs.Prune Proofs.PreTags.
+Theorem pre_tags_refine :
+  forall (W : N) (ovf : bool) (calls : list pcall) (ls : list tline),
+       1 <= W ->
+       cut_regular W (all_chars calls) ->
+       run_pre W ovf calls = Ok ls ->
+       map line_tags ls =
+       map (fun x : bool * list tc => resolve calls (snd x)) (expected_tags W (map pcall_text calls)).
+Proof. exact PreTags.pre_tags_refine. Qed.
+Print Assumptions pre_tags_refine.
+
+Theorem pre_tags_lines :
+  forall (W : N) (ovf : bool) (calls : list pcall) (ls : list tline),
+       1 <= W ->
+       cut_regular W (all_chars calls) ->
+       run_pre W ovf calls = Ok ls ->
+       Forall2 (fun (l : tline) (e : bool * list tc) => line_tags l = resolve calls (snd e)) ls
+         (marked W calls).
+Proof. exact PreTags.pre_tags_lines. Qed.
+Print Assumptions pre_tags_lines.
+
+Theorem pre_cont_pieces :
+  forall (W : N) (calls : list pcall),
+       1 <= W ->
+       PreProof.words_pos (all_chars calls) ->
+       forall l : list tc, In (false, l) (marked W calls) -> cont_shape l = true.
+Proof. exact PreTags.pre_cont_pieces. Qed.
+Print Assumptions pre_cont_pieces.
+
+Theorem cont_shape_spec :
+  forall l : list tc,
+       cont_shape l = true ->
+       exists sp pre rest : list tc,
+         l = sp ++ pre ++ rest /\
+         Forall is_wsc sp /\
+         Forall (fun x : tc => is_nonws x /\ is_main x) pre /\
+         Forall (fun x : tc => is_wsc x \/ is_wrap x) rest.
+Proof. exact PreTags.cont_shape_spec. Qed.
+Print Assumptions cont_shape_spec.
+
+Theorem pre_first_pieces :
+  forall (W : N) (calls : list pcall),
+       1 <= W ->
+       PreProof.words_pos (all_chars calls) ->
+       first_ok W (all_chars calls) -> forall l : list tc, In (true, l) (marked W calls) -> Forall is_main l.
+Proof. exact PreTags.pre_first_pieces. Qed.
+Print Assumptions pre_first_pieces.
+
+Theorem pre_one_word_lines :
+  forall (W : N) (calls : list pcall),
+       1 <= W ->
+       PreProof.words_pos (all_chars calls) ->
+       one_word_lines W (all_chars calls) ->
+       forall (f : bool) (l : list tc),
+       In (f, l) (marked W calls) ->
+       if f then Forall (fun x : tc => is_nonws x -> is_main x) l else Forall is_wrap l.
+Proof. exact PreTags.pre_one_word_lines. Qed.
+Print Assumptions pre_one_word_lines.
+
